@@ -145,11 +145,11 @@ func (c *Context) Child(id string) *PID {
 
 // Children returns all child PIDs for the current process.
 func (c *Context) Children() []*PID {
-	pids := make([]*PID, c.children.Len())
-	i := 0
+	// children stop (and remove themselves) on their own goroutines: size the
+	// result by what is iterated, not by an earlier Len().
+	pids := make([]*PID, 0, c.children.Len())
 	c.children.ForEach(func(_ string, child *PID) {
-		pids[i] = child
-		i++
+		pids = append(pids, child)
 	})
 	return pids
 }
